@@ -40,9 +40,9 @@ checks = {
    note="Requests with trailing bytes or an inconsistent byte-count field are only checked for safety. Go error accepted only for requests shorter than the fixed header. Part server-frames: what Server.Listen does per packet (transport Decode, unit check, ProcessRequest, Encode) for arbitrary TCP and RTU bytes."),
  "C19": dict(
    category="exploration", design_ref="DESIGN.md §3 C19",
-   technique="exhaustive enumeration of client API calls (every count 1..2000 / 1..125 at an address alphabet, single writes + read back, 65 537 consecutive TCP transactions) on the real Client <-> real Server.Listen over in-memory RTU and TCP transports, against the reference register file; every single-byte substitution/truncation/transaction-id mutation of responses; all 2^32 values through the converters (thorough)",
+   technique="exhaustive enumeration of client API calls (every count 1..2000 / 1..125 at an address alphabet, single writes + read back, 65 537 consecutive TCP transactions) on the real Client <-> real Server.Listen over in-memory RTU and TCP transports, against the reference register file; every single-byte substitution/truncation/transaction-id mutation of responses; all 2^32 values through the converters (thorough); the RTU client behind the real respreader with the response handed out in pieces of at most k bytes per port read, each at once or 1 ms late (all patterns with at most one departure)",
    text="The values and the number of values returned by every call equal the reference content; illegal reads never return data; mutated frames are rejected or yield exactly the true data; converters are exact inverses bit for bit.",
-   note="In-memory transports (packet pipe / net.Pipe) stand in for serial port and socket; the client API has no multi-write, so only the six calls it offers are driven."),
+   note="In-memory transports (packet pipe / net.Pipe) stand in for serial port and socket; the client API has no multi-write, so only the six calls it offers are driven. Part rtu-through-response-reader frames by real time (respreader chunk timeout 80 ms, gaps of 1 ms): transactions and delivery patterns are enumerated, goroutine timing inside the response reader is the runtime's; a failure is believed only if it repeats on 3 fresh links."),
  "C01": dict(
    category="model_checking", design_ref="DESIGN.md §3 C01",
    technique="stateless model checking of the real store: exhaustive DFS over choice sequences (point lists x all permutations x all batch compositions x one re-delivery) executed on a fresh real SQLite store over a deterministic in-process bus, reference model newest-timestamp-wins checked after every delivery",
@@ -62,7 +62,7 @@ checks = {
    category="model_checking", design_ref="DESIGN.md §3 C06",
    technique="exhaustive enumeration of graph configurations (every DAG shape over root+3 nodes with each edge absent/live/tombstoned; root+4 live-only in quick, full in thorough) on the real store; for every node and edge every kind of write is executed and the set of up.* subjects seen by a bus spy is compared with graph reachability computed by a reference model",
    text="Set equality between observed and expected rebroadcast subjects (missing ancestor = violation, non-ancestor = violation), payload identical to the request, for node points (live edges) and edge points (any edges), incl. up.root.* iff the instance root is reached.",
-   note="Shapes up to isomorphism (fixed topological order). Bus = in-process stand-in (inline). Per shape also: batches with several samples of one identity, every edge flipped (live<->deleted) with node points again, flipped back with node points again."),
+   note="Shapes up to isomorphism (fixed topological order). Bus = in-process stand-in (inline). Per shape also: batches with several samples of one identity, every edge flipped (live<->deleted) with node points again, flipped back with node points again. Part root-mirrored-k2: the instance root itself (and N1) placed below a node D outside the tree."),
  "C09": dict(
    category="model_checking", design_ref="DESIGN.md §3 C09",
    technique="exhaustive cross product of HTTP methods x node routes x Authorization header kinds x bodies through the real api handler (ServeHTTP) with a bus spy and snapshot comparison; explicit-state search over user-placement histories on the real store for login/listing; real nats-server + real nats.go clients for the bus token",
@@ -77,7 +77,7 @@ checks = {
    category="fault_enumeration", design_ref="DESIGN.md §2.5, §3 C04",
    technique="exhaustive crash-point enumeration: the real writer process (real store on real SQLite files) is SIGKILLed by strace fault injection at EVERY state-changing system call on the store files (first-time initialisation, each write transaction, shutdown/checkpoint), then the real recovery path runs on the surviving files and is compared with the reference states of the acknowledged prefix",
    text="For every kill point N: the store opens again, root id and signing key are those announced before the crash (a pre-crash token validates), the recovered content equals the reference state after k or k+1 requests where k = acknowledgements received before death (no acknowledged write lost, each batch all-or-nothing), all hashes are consistent (C03 recomputation), the instance accepts a write, and identity is stable over a further restart.",
-   note="Process death only (page cache survives); wal-index (mmap) intermediate states are not separate crash points; strace counts injections per thread, so the writer pins the phase under test to the traced main thread (two writer modes)."),
+   note="Process death only (page cache survives); wal-index (mmap) intermediate states are not separate crash points; strace counts injections per thread, so the writer pins the phase under test to the traced main thread (two writer modes). Quick: histories 0 (all transactional elements), 1 (mirror / diamond) and 3 (120-point batch, 60-point overwrite); thorough: all four histories x both modes x configured / generated root id."),
  "C13": dict(
    category="model_checking", design_ref="DESIGN.md §3 C13",
    technique="stateless model checking of the real RuleClient.Run inside testing/synctest bubbles (virtual clock, quiescence by synctest.Wait): exhaustive enumeration of rule configurations x sequences of point batches / clock advances, every publication of the rule compared with a reference interpreter after each batch",
